@@ -292,6 +292,7 @@ class Probes:
         gd = _cfg().CONFIG.validation_depth
         exp = self.expected_reject(op, cur, gd.name if gd else None)
         self.run.count(f"scope:op:{op}")
+        real = actual()       # what pandera itself says is in force
         try:
             res = schema.validate(obj)
             if isinstance(res, pl.LazyFrame) and exp is not None:
@@ -312,4 +313,5 @@ class Probes:
         if bad:
             self.violations.append(
                 {"kind": bad, "op": op, "config_in_force": dict(cur),
+                 "config_reported_by_pandera": real,
                  "at": path, "rejected": got, "reason": reason})
